@@ -1353,6 +1353,16 @@ def str_parse_literal(ctx):
         return mk_result(ctx.ex, ok=okv)
     # non-constant text parsed into an integer type: any value of that type, or a parse error
     h, a = generic_args((ctx.dest_ty or '').strip())
+    m = re.match(r'^core::str::<impl str>::parse::<(.*)>$', ctx.callee.strip(), re.S)
+    if m and m.group(1).strip() not in INT_TYPES:
+        # str::parse::<T>() is <T as FromStr>::from_str: run the repository's own implementation when T has one
+        from engine import Push
+        try:
+            fs = ctx.ex.db.method(last_seg(strip_turbofish(m.group(1).strip())), 'from_str', trait='FromStr')
+        except KeyError:
+            fs = None
+        if fs is not None and not any(rx.search(fs.name) for rx in ctx.ex.no_inline):
+            return Push(fs, [ctx.args[0]])
     if a and a[0].strip() in INT_TYPES:
         ex, st = ctx.ex, ctx.st
         d = z3.BitVec(fresh_name('parse_fails'), 64)
